@@ -203,6 +203,12 @@ pub fn run(tier: &str, seed: u64, s: &mut Sink) {
             name.push_str(r.pick(&alpha));
         }
         emit(s, format!("nm {}", hex(name.as_bytes())), "name");
+        if name.len() <= 4 || r.chance(1, 4) {
+            emit(s, format!("rel01id {}", hex(name.as_bytes())), "id-conversions");
+        }
+    }
+    for w in ["", "0", "00", "09", "9", "99", "100", "cb01", "cb04", "cb05", "CB01", "é0", "0é", "€", "\u{10348}"] {
+        emit(s, format!("rel01id {}", hex(w.as_bytes())), "id-conversions");
     }
     // ---- arbitrary bytes of every length 0..=120 and a few long strings up to 65 KiB, for every byte decoder
     for len in 0..=120usize {
@@ -234,7 +240,39 @@ pub fn run(tier: &str, seed: u64, s: &mut Sink) {
     }
 }
 
-/// the case tags belong to the decoders' own modules
-pub fn observe_line(_line: &str) -> Option<String> {
-    None
+/// implementation-only oracle for the board-ID / channel-ID conversions (`rel01id <hex of a UTF-8 string>`):
+/// none of them may panic on any string or number derived from it
+fn id_conversions(name: &str) -> String {
+    let n = name.to_string();
+    let r = catch(move || {
+        let _ = alpha_g_detector::alpha16::BoardId::try_from(n.as_str());
+        let _ = alpha_g_detector::padwing::BoardId::try_from(n.as_str());
+        let _ = alpha_g_detector::chronobox::BoardId::try_from(n.as_str());
+        // numeric conversions on every byte / 16-bit word of the string
+        let b = n.as_bytes();
+        for (i, &x) in b.iter().enumerate() {
+            let _ = alpha_g_detector::alpha16::Adc16ChannelId::try_from(x);
+            let _ = alpha_g_detector::alpha16::Adc32ChannelId::try_from(x);
+            let _ = alpha_g_detector::alpha16::ModuleId::try_from(x);
+            let _ = alpha_g_detector::chronobox::ChannelId::try_from(x);
+            let w = u16::from(x) | (u16::from(*b.get(i + 1).unwrap_or(&0)) << 8);
+            let _ = alpha_g_detector::padwing::ChannelId::try_from(w);
+            let _ = alpha_g_detector::padwing::PadChannelId::try_from(w);
+            let _ = alpha_g_detector::padwing::AfterId::try_from(x);
+            let _ = alpha_g_detector::padwing::AfterId::try_from(x as char);
+        }
+    });
+    if r.is_some() { "holds".to_string() } else { "fails panic in an ID conversion".to_string() }
+}
+
+/// the other case tags belong to the decoders' own modules
+pub fn observe_line(line: &str) -> Option<String> {
+    let (tag, rest) = line.split_once(' ').unwrap_or((line, "-"));
+    match tag {
+        "rel01id" => Some(match String::from_utf8(unhex(rest)) {
+            Ok(s) => id_conversions(&s),
+            Err(_) => "holds".to_string(),
+        }),
+        _ => None,
+    }
 }
